@@ -64,6 +64,7 @@ type LockDecl struct {
 	Type, Field string
 	Protects    []string
 	Inv         []*Clause
+	WaitInv     []*Clause // two-state conditions that must hold whenever the thread blocks (Cond.Wait)
 }
 
 type Macro struct {
@@ -285,8 +286,14 @@ func ParseContractFile(path string) (*ContractFile, error) {
 					return nil, err
 				}
 				ld.Inv = append(ld.Inv, c)
+			case "wait_invariant":
+				c, err := parseClause("waitinv", r3, path, rl.line)
+				if err != nil {
+					return nil, err
+				}
+				ld.WaitInv = append(ld.WaitInv, c)
 			default:
-				return nil, errf("lock clause must be protects or invariant")
+				return nil, errf("lock clause must be protects, invariant or wait_invariant")
 			}
 		case "requires", "ensures", "panics_iff", "panics_if", "assume", "ensures_panic":
 			c, err := parseClause(kw, rest, path, rl.line)
@@ -332,6 +339,9 @@ func ParseContractFile(path string) (*ContractFile, error) {
 		}
 		for _, l := range fc.Locks {
 			for _, c := range l.Inv {
+				c.E = expandMacros(c.E, cf.Macros)
+			}
+			for _, c := range l.WaitInv {
 				c.E = expandMacros(c.E, cf.Macros)
 			}
 		}
